@@ -144,4 +144,294 @@ theorem L1raw (interp : Bool) (s : Seg) (wf : WFraw interp s) (tail : Bytes) :
     simp [show LBR ≠ BS by decide, show LBR ≠ DQ by decide, show LBR ≠ NL by decide,
       show RBR ≠ BS by decide, show RBR ≠ DQ by decide, show RBR ≠ NL by decide]
 
+/-! ### stage 2: ParseSInterP -/
+
+def i2dq : Seg → Bytes
+  | .lit c => if c = NL then [BS, Ln] else if c = PC then [PC, PC] else [c]
+  | .esc c => [BS, c]
+  | .brace c => [c]
+  | .hole _ => [PC, Ls]
+
+def i2raw : Seg → Bytes
+  | .lit c => if c = BS then [BS, BS] else if c = DQ then [BS, DQ] else if c = NL then [BS, Ln]
+      else if c = PC then [PC, PC] else [c]
+  | .hole _ => [PC, Ls]
+  | s => s.src
+
+def holesOf : Seg → List Bytes
+  | .hole n => [n]
+  | _ => []
+
+theorem pi_bs (f : Nat) (c2 : UInt8) (t : Bytes) :
+    parseInterp (f + 1) (BS :: c2 :: t) =
+      pre2 (if c2 = LBR ∨ c2 = RBR then [c2] else [BS, c2]) [] (parseInterp f t) := by
+  simp only [parseInterp, if_true]
+  cases parseInterp f t with
+  | error e => rfl
+  | ok p => obtain ⟨x, vs⟩ := p; by_cases h : c2 = LBR ∨ c2 = RBR <;> simp [pre2, h]
+
+theorem pi_pc (f : Nat) (t : Bytes) : parseInterp (f + 1) (PC :: t) = pre2 [PC, PC] [] (parseInterp f t) := by
+  simp only [parseInterp, show PC ≠ BS by decide, if_false, if_true]
+  cases parseInterp f t with
+  | error e => rfl
+  | ok p => obtain ⟨x, vs⟩ := p; simp [pre2]
+
+theorem pi_other (f : Nat) (c : UInt8) (t : Bytes) (h1 : c ≠ BS) (h2 : c ≠ PC) (h3 : c ≠ LBR) :
+    parseInterp (f + 1) (c :: t) = pre2 [c] [] (parseInterp f t) := by
+  simp only [parseInterp, h1, h2, h3, if_false]
+  cases parseInterp f t with
+  | error e => rfl
+  | ok p => obtain ⟨x, vs⟩ := p; simp [pre2]
+
+theorem takeName_cons (c : UInt8) (r : Bytes) (h : c ≠ RBR) (hr : r ≠ []) :
+    takeName (c :: r) = (match takeName r with
+      | .ok (n, r') => .ok (c :: n, r')
+      | .error e => .error e) := by
+  cases r with
+  | nil => exact absurd rfl hr
+  | cons y ys => simp only [takeName, h, if_false]; rfl
+
+theorem takeName_ident (n : Bytes) (hn : ∀ b ∈ n, identByte b = true) (t : Bytes) :
+    takeName (n ++ RBR :: t) = .ok (n, t) := by
+  induction n with
+  | nil => cases t <;> simp [takeName]
+  | cons b rest ih =>
+    have hb := ident_ne (hn b List.mem_cons_self)
+    have := ih (fun x hx => hn x (List.mem_cons_of_mem _ hx))
+    rw [List.cons_append, takeName_cons b _ hb.2.2.2.2.1 (by simp), this]
+
+theorem pi_hole (f : Nat) (n : Bytes) (hn : ∀ b ∈ n, identByte b = true) (t : Bytes) :
+    parseInterp (f + 1) (LBR :: n ++ RBR :: t) = pre2 [PC, Ls] [n] (parseInterp f t) := by
+  simp only [List.cons_append, parseInterp, show LBR ≠ BS by decide, show LBR ≠ PC by decide, if_false, if_true,
+    takeName_ident n hn t]
+  cases parseInterp f t with
+  | error e => rfl
+  | ok p => obtain ⟨x, vs⟩ := p; simp [pre2]
+
+theorem L2dq (s : Seg) (wf : WFdq true s) (f : Nat) (tail : Bytes) :
+    parseInterp (f + 1) (i1dq s ++ tail) = pre2 (i2dq s) (holesOf s) (parseInterp f tail) := by
+  cases s with
+  | lit c =>
+    obtain ⟨h1, h2, h3⟩ := wf
+    have h3 := h3 rfl
+    by_cases hn : c = NL
+    · subst hn
+      simp only [i1dq, i2dq, holesOf, if_true, List.cons_append, List.nil_append]
+      rw [pi_bs]; simp [show Ln ≠ LBR by decide, show Ln ≠ RBR by decide]
+    · by_cases hp : c = PC
+      · subst hp; simp only [i1dq, i2dq, holesOf, hn, if_false, if_true, List.cons_append, List.nil_append]; exact pi_pc f tail
+      · simp only [i1dq, i2dq, holesOf, hn, hp, if_false, List.cons_append, List.nil_append]
+        exact pi_other f c tail h2 hp h3
+  | esc c =>
+    have hc : ¬ (c = LBR ∨ c = RBR) := by
+      rcases wf with h | h | h | h <;> subst h <;> decide
+    simp only [i1dq, i2dq, holesOf, List.cons_append, List.nil_append]
+    rw [pi_bs]; simp [hc]
+  | brace c =>
+    obtain ⟨_, hc⟩ := wf
+    simp only [i1dq, i2dq, holesOf, List.cons_append, List.nil_append]
+    rw [pi_bs]; simp [hc]
+  | hole n =>
+    obtain ⟨_, hn⟩ := wf
+    simp only [i1dq, i2dq, holesOf, List.cons_append, List.append_assoc, List.nil_append]
+    exact pi_hole f n hn tail
+
+theorem L2raw (s : Seg) (wf : WFraw true s) (f : Nat) (tail : Bytes) :
+    parseInterp (f + 1) (i1raw s ++ tail) = pre2 (i2raw s) (holesOf s) (parseInterp f tail) := by
+  cases s with
+  | lit c =>
+    obtain ⟨h1, h3⟩ := wf
+    have h3 := h3 rfl
+    by_cases hb : c = BS
+    · subst hb; simp only [i1raw, i2raw, holesOf, if_true, List.cons_append, List.nil_append]
+      rw [pi_bs]; simp [show BS ≠ LBR by decide, show BS ≠ RBR by decide]
+    · by_cases hd : c = DQ
+      · subst hd; simp only [i1raw, i2raw, holesOf, hb, if_false, if_true, List.cons_append, List.nil_append]
+        rw [pi_bs]; simp [show DQ ≠ LBR by decide, show DQ ≠ RBR by decide]
+      · by_cases hn : c = NL
+        · subst hn; simp only [i1raw, i2raw, holesOf, hb, hd, if_false, if_true, List.cons_append, List.nil_append]
+          rw [pi_bs]; simp [show Ln ≠ LBR by decide, show Ln ≠ RBR by decide]
+        · by_cases hp : c = PC
+          · subst hp; simp only [i1raw, i2raw, holesOf, hb, hd, hn, if_false, if_true, List.cons_append, List.nil_append]
+            exact pi_pc f tail
+          · simp only [i1raw, i2raw, holesOf, hb, hd, hn, hp, if_false, List.cons_append, List.nil_append]
+            exact pi_other f c tail hb hp h3
+  | esc c => exact wf.elim
+  | brace c => exact wf.elim
+  | hole n =>
+    obtain ⟨_, hn⟩ := wf
+    simp only [i1raw, i2raw, holesOf, List.cons_append, List.append_assoc, List.nil_append]
+    exact pi_hole f n hn tail
+
+/-! ### stage 3: Go's interpretation of the emitted string literal -/
+
+def i3 : Seg → Bytes
+  | .lit c => if c = PC then [PC, PC] else [c]
+  | .esc c => [escValue c]
+  | .brace c => [c]
+  | .hole _ => [PC, Ls]
+
+theorem gu_esc (c2 : UInt8) (t : Bytes) (h : c2 = Ln ∨ c2 = Lt ∨ c2 = BS ∨ c2 = DQ) :
+    goUnquote (BS :: c2 :: t) = (goUnquote t).map (escValue c2 :: ·) := by
+  rcases h with h | h | h | h <;> subst h
+  · cases hg : goUnquote t <;> simp [goUnquote, escValue, hg]
+  · cases hg : goUnquote t <;> simp [goUnquote, escValue, hg, show Lt ≠ Ln by decide]
+  · cases hg : goUnquote t <;>
+      simp [goUnquote, escValue, hg, show BS ≠ Ln by decide, show BS ≠ Lt by decide]
+  · cases hg : goUnquote t <;>
+      simp [goUnquote, escValue, hg, show DQ ≠ Ln by decide, show DQ ≠ Lt by decide, show DQ ≠ BS by decide]
+
+theorem gu_other (c : UInt8) (t : Bytes) (h1 : c ≠ BS) (h2 : c ≠ DQ) (h3 : c ≠ NL) :
+    goUnquote (c :: t) = (goUnquote t).map (c :: ·) := by
+  cases t <;> simp [goUnquote, h1, h2, h3]
+
+theorem map_map_cons (o : Option Bytes) (a b : UInt8) :
+    (o.map (b :: ·)).map (a :: ·) = o.map ([a, b] ++ ·) := by cases o <;> rfl
+
+theorem gu_two (a b : UInt8) (t : Bytes) (ha : a ≠ BS ∧ a ≠ DQ ∧ a ≠ NL) (hb : b ≠ BS ∧ b ≠ DQ ∧ b ≠ NL) :
+    goUnquote (a :: b :: t) = (goUnquote t).map ([a, b] ++ ·) := by
+  rw [gu_other a _ ha.1 ha.2.1 ha.2.2, gu_other b _ hb.1 hb.2.1 hb.2.2, map_map_cons]
+
+theorem gu_one (a : UInt8) (t : Bytes) (ha : a ≠ BS ∧ a ≠ DQ ∧ a ≠ NL) :
+    goUnquote (a :: t) = (goUnquote t).map ([a] ++ ·) := gu_other a t ha.1 ha.2.1 ha.2.2
+
+theorem gu_esc' (c2 : UInt8) (t : Bytes) (h : c2 = Ln ∨ c2 = Lt ∨ c2 = BS ∨ c2 = DQ) :
+    goUnquote (BS :: c2 :: t) = (goUnquote t).map ([escValue c2] ++ ·) := gu_esc c2 t h
+
+/-- interpolated "...": format pieces after Go unquoting -/
+theorem L3dq (s : Seg) (wf : WFdq true s) (tail : Bytes) :
+    goUnquote (i2dq s ++ tail) = (goUnquote tail).map (i3 s ++ ·) := by
+  cases s with
+  | lit c =>
+    obtain ⟨h1, h2, _⟩ := wf
+    by_cases hn : c = NL
+    · subst hn
+      simp only [i2dq, i3, if_true, show NL ≠ PC by decide, if_false, List.cons_append, List.nil_append]
+      exact gu_esc' Ln tail (Or.inl rfl)
+    · by_cases hp : c = PC
+      · subst hp
+        simp only [i2dq, i3, hn, if_false, if_true, List.cons_append, List.nil_append]
+        exact gu_two PC PC tail (by decide) (by decide)
+      · simp only [i2dq, i3, hn, hp, if_false, List.cons_append, List.nil_append]
+        exact gu_one c tail ⟨h2, h1, hn⟩
+  | esc c => simp only [i2dq, i3, List.cons_append, List.nil_append]; exact gu_esc' c tail wf
+  | brace c =>
+    obtain ⟨_, hc⟩ := wf
+    simp only [i2dq, i3, List.cons_append, List.nil_append]
+    rcases hc with hc | hc <;> subst hc <;> exact gu_one _ tail (by decide)
+  | hole n =>
+    simp only [i2dq, i3, List.cons_append, List.nil_append]
+    exact gu_two PC Ls tail (by decide) (by decide)
+
+theorem L3raw (s : Seg) (wf : WFraw true s) (tail : Bytes) :
+    goUnquote (i2raw s ++ tail) = (goUnquote tail).map (i3 s ++ ·) := by
+  cases s with
+  | lit c =>
+    by_cases hb : c = BS
+    · subst hb
+      simp only [i2raw, i3, if_true, show BS ≠ PC by decide, if_false, List.cons_append, List.nil_append]
+      exact gu_esc' BS tail (Or.inr (Or.inr (Or.inl rfl)))
+    · by_cases hd : c = DQ
+      · subst hd
+        simp only [i2raw, i3, hb, if_true, show DQ ≠ PC by decide, if_false, List.cons_append, List.nil_append]
+        exact gu_esc' DQ tail (Or.inr (Or.inr (Or.inr rfl)))
+      · by_cases hn : c = NL
+        · subst hn
+          simp only [i2raw, i3, hb, hd, if_true, show NL ≠ PC by decide, if_false, List.cons_append, List.nil_append]
+          exact gu_esc' Ln tail (Or.inl rfl)
+        · by_cases hp : c = PC
+          · subst hp
+            simp only [i2raw, i3, hb, hd, hn, if_false, if_true, List.cons_append, List.nil_append]
+            exact gu_two PC PC tail (by decide) (by decide)
+          · simp only [i2raw, i3, hb, hd, hn, hp, if_false, List.cons_append, List.nil_append]
+            exact gu_one c tail ⟨hb, hd, hn⟩
+  | esc c => exact wf.elim
+  | brace c => exact wf.elim
+  | hole n =>
+    simp only [i2raw, i3, List.cons_append, List.nil_append]
+    exact gu_two PC Ls tail (by decide) (by decide)
+
+/-- plain "...": the token text itself is what Go unquotes -/
+theorem L3plain_dq (env : Bytes → Bytes) (s : Seg) (wf : WFdq false s) (tail : Bytes) :
+    goUnquote (i1dq s ++ tail) = (goUnquote tail).map (s.denote env ++ ·) := by
+  cases s with
+  | lit c =>
+    obtain ⟨h1, h2, _⟩ := wf
+    by_cases hn : c = NL
+    · subst hn
+      simp only [i1dq, Seg.denote, if_true, List.cons_append, List.nil_append]
+      exact gu_esc' Ln tail (Or.inl rfl)
+    · simp only [i1dq, Seg.denote, hn, if_false, List.cons_append, List.nil_append]
+      exact gu_one c tail ⟨h2, h1, hn⟩
+  | esc c => simp only [i1dq, Seg.denote, List.cons_append, List.nil_append]; exact gu_esc' c tail wf
+  | brace c => exact absurd wf.1 (by decide)
+  | hole n => exact absurd wf.1 (by decide)
+
+/-- plain `...` -/
+theorem L3plain_raw (env : Bytes → Bytes) (s : Seg) (wf : WFraw false s) (tail : Bytes) :
+    goUnquote (i1raw s ++ tail) = (goUnquote tail).map (s.denote env ++ ·) := by
+  cases s with
+  | lit c =>
+    by_cases hb : c = BS
+    · subst hb
+      simp only [i1raw, Seg.denote, if_true, List.cons_append, List.nil_append]
+      exact gu_esc' BS tail (Or.inr (Or.inr (Or.inl rfl)))
+    · by_cases hd : c = DQ
+      · subst hd
+        simp only [i1raw, Seg.denote, hb, if_true, if_false, List.cons_append, List.nil_append]
+        exact gu_esc' DQ tail (Or.inr (Or.inr (Or.inr rfl)))
+      · by_cases hn : c = NL
+        · subst hn
+          simp only [i1raw, Seg.denote, hb, hd, if_true, if_false, List.cons_append, List.nil_append]
+          exact gu_esc' Ln tail (Or.inl rfl)
+        · simp only [i1raw, Seg.denote, hb, hd, hn, if_false, List.cons_append, List.nil_append]
+          exact gu_one c tail ⟨hb, hd, hn⟩
+  | esc c => exact wf.elim
+  | brace c => exact wf.elim
+  | hole n => exact absurd wf.1 (by decide)
+
+/-! ### stage 4: fmt.Sprintf -/
+
+theorem sp_other (c : UInt8) (t : Bytes) (args : List Bytes) (h : c ≠ PC) :
+    sprintf (c :: t) args = (sprintf t args).map ([c] ++ ·) := by
+  cases t <;> simp [sprintf, h]
+
+theorem sp_pcpc (t : Bytes) (args : List Bytes) :
+    sprintf (PC :: PC :: t) args = (sprintf t args).map ([PC] ++ ·) := by
+  simp [sprintf]
+
+theorem sp_hole (t : Bytes) (a : Bytes) (args : List Bytes) :
+    sprintf (PC :: Ls :: t) (a :: args) = (sprintf t args).map (a ++ ·) := by
+  simp [sprintf, show Ls ≠ PC by decide]
+
+theorem L4 (env : Bytes → Bytes) (s : Seg) (wf : WFdq true s ∨ WFraw true s) (tail : Bytes) (args : List Bytes) :
+    sprintf (i3 s ++ tail) ((holesOf s).map env ++ args) = (sprintf tail args).map (s.denote env ++ ·) := by
+  cases s with
+  | lit c =>
+    by_cases hp : c = PC
+    · subst hp; simp only [i3, Seg.denote, holesOf, if_true, List.cons_append, List.nil_append, List.map_nil]
+      exact sp_pcpc tail args
+    · simp only [i3, Seg.denote, holesOf, hp, if_false, List.cons_append, List.nil_append, List.map_nil]
+      exact sp_other c tail args hp
+  | esc c =>
+    have hc : c = Ln ∨ c = Lt ∨ c = BS ∨ c = DQ := by
+      rcases wf with wf | wf
+      · exact wf
+      · exact wf.elim
+    have : escValue c ≠ PC := by
+      rcases hc with h | h | h | h <;> subst h <;> decide
+    simp only [i3, Seg.denote, holesOf, List.cons_append, List.nil_append, List.map_nil]
+    exact sp_other _ tail args this
+  | brace c =>
+    have hc : c = LBR ∨ c = RBR := by
+      rcases wf with wf | wf
+      · exact wf.2
+      · exact wf.elim
+    have : c ≠ PC := by rcases hc with h | h <;> subst h <;> decide
+    simp only [i3, Seg.denote, holesOf, List.cons_append, List.nil_append, List.map_nil]
+    exact sp_other _ tail args this
+  | hole n =>
+    simp only [i3, Seg.denote, holesOf, List.cons_append, List.nil_append, List.map_cons, List.map_nil]
+    exact sp_hole tail (env n) args
+
 end Folang.Literal
